@@ -802,10 +802,14 @@ def _sweep(idx: Index, res: Result) -> None:
     if len(keyv) != 1:
         raise AnalysisError("Model.memoize: normalised key variable not found")
     K = keyv[0]
-    tests = [n for n in walk_no_nested(memo.node) if isinstance(n, ast.Compare) and isinstance(n.ops[0], ast.In)]
-    ok = bool(tests) and all(src(t.left) == K for t in tests)
-    res.check("SWEEP", "memo looked up under the normalised time", ok, memo.loc(), memo.qual, src(tests[0]) if tests else "",
-              "the memo is probed with %s" % (src(tests[0].left) if tests else "?"), key="SWEEP/memoize/lookup-key")
+    from ..util import is_row as _is_row, row_aliases as _row_aliases
+    _rows = _row_aliases(memo.node, "self.memo")
+    probes = [n.left for n in walk_no_nested(memo.node) if isinstance(n, ast.Compare) and isinstance(n.ops[0], (ast.In, ast.NotIn))
+              and _is_row(_rows, n.comparators[0], "self.memo")]
+    probes += [c.args[0] for c in iter_calls(memo.node) if call_name(c) == "get" and c.args and _is_row(_rows, c.func.value, "self.memo")]
+    ok = bool(probes) and all(src(t) == K for t in probes)
+    res.check("SWEEP", "memo looked up under the normalised time", ok, memo.loc(), memo.qual, src(probes[0]) if probes else "",
+              "the memo is probed with %s" % (src(probes[0]) if probes else "?"), key="SWEEP/memoize/lookup-key")
     evs = [c for c in iter_calls(memo.node) if isinstance(c.func, ast.Subscript) and "equations" in src(c.func.value)]
     ok = len(evs) == 1 and [src(a) for a in evs[0].args] == [K]
     res.check("SWEEP", "equation evaluated at the normalised time", ok, memo.loc(), memo.qual, src(evs[0]) if evs else "",
@@ -916,8 +920,9 @@ def _builtins(idx: Index, res: Result, renderers: List[Renderer]) -> None:
     # ---- smooth / trend: level' = (input - level) / T through an *unclamped* element
     for cname, level, change in (("Smooth", "smooth", "change_in_smooth"), ("Trend", "exponential_average", "change_in_average")):
         ctor = idx.func(OPS, "%s.__init__" % cname)
+        from ..util import expand_aliases
         a = {}
-        for n in walk_no_nested(ctor.node):
+        for n in walk_no_nested(expand_aliases(ctor.node)):       # locals that are stored into self.<x> once are self.<x>
             if isinstance(n, ast.Assign) and len(n.targets) == 1:
                 a.setdefault(src(n.targets[0]), []).append(n.value)
         mk = a.get("self.%s" % change, [None])[0]
@@ -938,7 +943,7 @@ def _builtins(idx: Index, res: Result, renderers: List[Renderer]) -> None:
                   "the change element of %s is created with model.%s(): a flow is clamped at 0, so the exponential average can only "
                   "rise and never follows a falling input" % (cname, kind), key="BUILTIN/%s/change-is-clamped-%s" % (cname, kind))
     tr = idx.func(OPS, "Trend.__init__")
-    teq = [n.value for n in walk_no_nested(tr.node) if isinstance(n, ast.Assign) and src(n.targets[0]) == "self.trend.equation"]
+    teq = [n.value for n in walk_no_nested(expand_aliases(tr.node)) if isinstance(n, ast.Assign) and src(n.targets[0]) == "self.trend.equation"]
     ok = bool(teq) and nf(teq[0]) == nf("(self.input_function - self.exponential_average) / (self.exponential_average * self.averaging_time)")
     res.check("BUILTIN", "trend = (input - average) / (average * averaging time)", ok, tr.loc(), tr.qual, src(teq[0]) if teq else "",
               "the trend equation is %s" % (src(teq[0]) if teq else "?"), key="BUILTIN/Trend/equation")
